@@ -397,6 +397,21 @@ fn run(sc: &Scn, w: &mut World, tr: &mut Trace, cov: &mut Cov) -> Option<Violati
                         format!("a={} needed wait {} ns > max queueing {} ns but admitted (wait announced {})", a, need, maxq_ns, wait),
                     ));
                 }
+                // a request that arrives at or after its slot needs no queueing at all: it must be admitted
+                // whatever the maximum queueing time is (for hotspot the slot is taken with the spacing rounded
+                // up to the rule's millisecond arithmetic, so rounding cannot excuse a rejection)
+                let need_hi: i128 = match s_prev.get(&v) {
+                    Some(s) if !is_flow => *s + ((spacing + MS as i128 - 1) / MS as i128) * MS as i128 - a,
+                    Some(s) => *s + spacing - a,
+                    None => i128::MIN / 4,
+                };
+                if need_hi <= 0 && !admitted {
+                    return Some(Violation::new(
+                        format!("C07/{}/rejected-though-slot-is-free", fam),
+                        i,
+                        format!("a={} previous slot {:?} + spacing {} ns has passed, no wait is needed, but the request was rejected: {}", a, s_prev.get(&v), spacing, if let Obs::Blocked(t) = &obs { t.as_str() } else { "" }),
+                    ));
+                }
                 if need < maxq_ns - tick && !admitted {
                     return Some(Violation::new(
                         format!("C07/{}/rejected-though-wait-within-max-queueing-time", fam),
